@@ -62,8 +62,33 @@ def recover(job):
     except Exception as e:
         return {"outcome": "rebuild-error", "fail": "reconstruction failed: %s: %s" % (type(e).__name__, e), "machinery": True}
     C = RL.committed_steps(ops, ROOT)
-    if job.get("torn") is not None and ops[-1][1] == "append":
-        pass  # a torn write never commits anything: C is unchanged
+    return judge(dst, spec, C)
+
+
+def copy_sub(src, dst):
+    """Copy a checkpoint tree to a same-length sibling path, substituting the path inside files."""
+    assert len(src) == len(dst)
+    shutil.rmtree(dst, ignore_errors=True)
+    a, b = src.encode(), dst.encode()
+    for r, ds, fs in os.walk(src):
+        rel = os.path.relpath(r, src)
+        os.makedirs(os.path.join(dst, rel) if rel != "." else dst, exist_ok=True)
+        for f in fs:
+            try:
+                data = open(os.path.join(r, f), "rb").read()
+            except FileNotFoundError:
+                continue  # deleted between listing and reading (a concurrent retention deletion)
+            with open(os.path.join(dst, rel, f) if rel != "." else os.path.join(dst, f), "wb") as fh:
+                fh.write(data.replace(a, b))
+
+
+def judge(dst, spec, C, at_least=False):
+    """Recover from the directory dst.  C = steps completed before the kill.  With at_least=True the
+    restored iteration may be newer than max(C) (used when C comes from a log that can miss an
+    in-flight commit) but must still be correctly labelled."""
+    from mc import drive, seg, workers
+
+    workers.ensure()
     cls = drive.solver_cls(spec["solver"])
     states, conv_at, _ = reference(spec)
     out = {"C": sorted(C), "fail": None}
@@ -85,11 +110,13 @@ def recover(job):
     try:
         it = int(s.iteration)
         st = seg.full_state(s)
-        if not C:
+        if not C and not at_least:
             out["outcome"] = "restored-without-commit"
             out["fail"] = "no checkpoint had been completed, yet restore() returned a solver at iteration %d" % it
             return out
-        if it != max(C):
+        if at_least and (not C or it > max(C)) and it in (seg.step_dirs(dst) or []):
+            pass
+        elif not C or it != max(C):
             out["outcome"] = "wrong-iteration"
             out["fail"] = "restored iteration %d, newest completed checkpoint is %d (completed: %s)" % (it, max(C), sorted(C))
             return out
